@@ -13,6 +13,12 @@ step = {'kind': 'set',     'in': [[k, data]..], 'pairs': [[k, tree]..]}
      | {'kind': 'py',      'in': .., 'code': ['append', k, z] | ['setitem', k, s, z], 'retry': n?}
      | {'kind': 'copy',    'in': .., 'pairs': [[k, k']..]}              pypyr.steps.contextcopy
      | {'kind': 'configvars'}
+     | {'kind': 'fail',    'in': .., 'swallow': bool, 'onError': tree | None}   a step that raises
+       ValueError (harness step vfail); save_error stores format(onError) as
+       runErrors[-1]['customError']
+     a `set` pair value / a py target may be {'pyref': [key, path]}: the object reached from
+       context[key] by the subscripts path ([['last']] = [-1], [['key', s]] = ['s']), BY REFERENCE
+       (set: {k: !py "key[-1]['s']"}  /  py: "key[-1]['s'].append(z)")
      optional on every kind except configvars: 'foreach': [tree..]  (non-empty literal)
      | {'kind': 'add', ...} / {'kind': 'foreachref', ...}: outside the model (monitor-only), raw yaml
 case = {'main': [step..], 'other': [step..], 'vars': [[k, data]..], 'dict_in': [[k, data]..],
@@ -25,12 +31,12 @@ Strings and bools only come from context parsers; observations encode them as in
 """
 import json
 
-RESERVED = {'set', 'append', 'contextMerge', 'defaults', 'py', 'contextCopy', 'add', 'runErrors',
+RESERVED = {'set', 'append', 'contextMerge', 'defaults', 'py', 'contextCopy', 'add', 'vfail',
             'c12tid', 'c12turn'}
 STEP_MODULE = {'set': 'pypyr.steps.set', 'append': 'pypyr.steps.append',
                'merge': 'pypyr.steps.contextmerge', 'default': 'pypyr.steps.default',
                'py': 'pypyr.steps.py', 'copy': 'pypyr.steps.contextcopy',
-               'configvars': 'pypyr.steps.configvars', 'add': 'pypyr.steps.add'}
+               'configvars': 'pypyr.steps.configvars', 'add': 'pypyr.steps.add', 'fail': 'vfail'}
 
 PARSER_MODULE = {'list': 'pypyr.parser.list', 'keys': 'pypyr.parser.keys',
                  'keyvaluepairs': 'pypyr.parser.keyvaluepairs', 'string': 'pypyr.parser.string'}
@@ -57,6 +63,8 @@ def yflow(t):
         return '!!set {' + ', '.join(yflow(x) for x in t['s']) + '}'
     if 'd' in t:
         return '{' + ', '.join(f'{k}: {yflow(x)}' for k, x in t['d']) + '}'
+    if 'pyref' in t:
+        return '!py ' + json.dumps(path_source(t['pyref']))
     if 'ref' in t:
         mode, key = t['ref']
         if mode == 'copy':
@@ -68,12 +76,25 @@ def yflow(t):
     raise ValueError(f'bad tree {t!r}')
 
 
+def path_source(pyref):
+    key, path = pyref
+    return key + ''.join('[-1]' if p[0] == 'last' else f'[{p[1]!r}]' for p in path)
+
+
+def py_target(t):
+    """(source text, base key, path) of a py step's target: a key or {'pyref': [key, path]}."""
+    if isinstance(t, dict):
+        return path_source(t['pyref']), t['pyref'][0], t['pyref'][1]
+    return t, t, []
+
+
 def py_source(st):
     code = st['code']
+    tgt = py_target(code[1])[0]
     if code[0] == 'append':
-        src = f'{code[1]}.append({code[2]})'
+        src = f'{tgt}.append({code[2]})'
     else:
-        src = f'{code[1]}[{code[2]!r}] = {code[3]}'
+        src = f'{tgt}[{code[2]!r}] = {code[3]}'
     if st.get('retry'):
         src += f"\nif retryCounter < {st['retry']}: raise ValueError('again')"
     return src
@@ -97,6 +118,8 @@ def body_arg(st):
         return 'contextCopy', '{' + ', '.join(f'{a}: {b}' for a, b in st['pairs']) + '}'
     if k == 'add':
         return 'add', '{set: ' + st['set'] + ', addMe: ' + yflow(st['addMe']) + '}'
+    if k == 'fail':
+        return 'vfail', '{err: ValueError, msg: boom}'
     return None
 
 
@@ -122,6 +145,11 @@ def emit_pipeline(steps, turn=False, parser=None):
                 lines.append('    foreach: ' + yflow({'l': st['foreach']}))
             if st.get('retry'):
                 lines.append('    retry: {max: ' + str(st['retry']) + '}')
+            if st['kind'] == 'fail':
+                if st.get('swallow'):
+                    lines.append('    swallow: true')
+                if st.get('onError') is not None:
+                    lines.append('    onError: ' + yflow(st['onError']))
         lines.append('  - c12_probe')
     if len(lines) == 1:
         lines = ['steps: []']
@@ -232,7 +260,14 @@ def body_ops(st):
     """abstract operations (tuples) of the step's body."""
     k = st['kind']
     if k == 'set':
-        return [('SetFmt', a, t) for a, t in st['pairs']]
+        return [('BindPath', a, t['pyref'][0], t['pyref'][1]) if isinstance(t, dict) and 'pyref' in t
+                else ('SetFmt', a, t) for a, t in st['pairs']]
+    if k == 'fail':
+        oe = st.get('onError')
+        # `if self.on_error` - a falsy onError ([] / {} / 0 / absent) is not formatted: customError = {}
+        falsy = oe is None or oe == 0 or (isinstance(oe, dict) and (oe.get('l') == [] or oe.get('d') == []))
+        ops = [('SaveError', {'d': []} if falsy else oe)]
+        return ops if st.get('swallow') else ops + [('Raise', 'ValueError')]
     if k == 'append':
         if st['mode'] == 'key':
             return [('AppendKey', st['list'], st['addMe'])]
@@ -243,6 +278,13 @@ def body_ops(st):
         return [('Defaults', st['pairs'])]
     if k == 'py':
         c = st['code']
+        _, base, path = py_target(c[1])
+        if path:
+            # x[..][..].append(z): find the object (by reference), then mutate it
+            one = [('BindPath', '$t', base, path),
+                   ('PyAppend', '$t', c[2]) if c[0] == 'append' else ('PySetItem', '$t', c[2], c[3]),
+                   ('Unset', '$t')]
+            return one
         one = ('PyAppend', c[1], c[2]) if c[0] == 'append' else ('PySetItem', c[1], c[2], c[3])
         if st.get('retry'):
             out = []
@@ -300,6 +342,13 @@ def render_op(o):
         return f'BindElem {cstr(o[1])} {cstr(o[2])} {o[3]}%nat'
     if t == 'SetInt':
         return f'SetInt {cstr(o[1])} ({o[2]})%Z'
+    if t == 'SaveError':
+        return f'SaveError {ctree(o[1])}'
+    if t == 'Raise':
+        return f'Raise {cstr(o[1])}'
+    if t == 'BindPath':
+        sels = '; '.join('SLast' if p[0] == 'last' else f'SKey {cstr(p[1])}' for p in o[3])
+        return f'BindPath {cstr(o[1])} {cstr(o[2])} [{sels}]'
     if t == 'Probe':
         return 'Probe'
     raise ValueError(o)
@@ -352,8 +401,11 @@ def disciplined(ops):
             T = T - {o[1]}
         elif t == 'SetFmt':
             T = _bind(T, o[1], o[2])
-        elif t in ('CopyRef', 'BindElem'):
+        elif t in ('CopyRef', 'BindElem', 'BindPath'):
             T = (T | {o[1]}) if o[2] in T else (T - {o[1]})
+        elif t == 'SaveError':
+            if 'runErrors' in T or _byref_tainted(T, o[1]):
+                return False
         elif t == 'AppendKey':
             if o[1] in T or _byref_tainted(T, o[2]):
                 return False
